@@ -17,11 +17,21 @@ fn ks(t: Tier) -> Vec<i128> {
     t.pick(vec![0, 1, 2, 3, 5, 30], vec![0, 1, 2, 3, 4, 5, 6, 7, 10, 30, 31, 365, 366, 3650])
 }
 
+/// ages far beyond the small ones (whole seconds above 2^24, 2^31 and 2^32): here only the operands
+/// 0, 1, k-2..k+2 and 2^31 are evaluated
+fn big_ks(t: Tier, period: i128) -> Vec<i128> {
+    if period == 60 {
+        t.pick(vec![300_000, 40_000_000], vec![300_000, 1_000_000, 40_000_000, 80_000_000])
+    } else {
+        t.pick(vec![200, 1000, 13_000, 25_000], vec![195, 200, 388, 1000, 13_000, 20_000, 25_000, 50_000])
+    }
+}
+
 fn spec(t: Tier) -> Spec {
     Spec {
         id: "C15",
         level: "exploration",
-        rule: format!("(A) for kind in {{a,c,m}} x period in {{60 s, 86400 s}} x k in {:?} x age in {{k*P-1s, k*P-1ns, k*P, k*P+1ns, k*P+1s}} (>=0) x sub-second phase of the timestamp in {:?}: the injected now() is set to (timestamp read back by lstat) + age, the two other timestamps of the file sit in other periods, a second file is one period older; every N in 0..k+2 (and 2^31) x forms N,+N,-N of the matching -Xtime / -Xmin primary is evaluated by the real find; expected = floor(age/P) ==,>,< N. (B) entry/reference pairs built so that entry.X - reference.Y is -1s,-1ns,0,+1ns,+1s for each (X,Y) in {{a,c,m}}^2 (c by ordering real metadata changes and reading back; equality of c via a hard link), at two placements (before/after the status-change times) and {} base phases; on every pair ALL of -newer, -anewer, -cnewer and the nine -newerXY are evaluated; expected = entry.X > reference.Y at nanosecond resolution from lstat() read back. (C) one run of the find binary against the real clock: an earlier starting point runs `sleep 4`, entries that were 56 s / one day minus 4 s old when find started are visited afterwards and must still count as 0 minutes / 0 days old (now fixed at start). evaluation = (file, primary, operand); non-trivial = age within 1 s of a period boundary (A) / the pair's controlled difference concerns that primary's X,Y (B)", ks(t), phases(t), phases(t).len()),
+        rule: format!("(A) for kind in {{a,c,m}} x period in {{60 s, 86400 s}} x k in {:?} (and, with operands 0, 1, k-2..k+2, 2^31 only, the large k {:?} days / {:?} minutes: whole seconds above 2^24, 2^31, 2^32) x age in {{k*P-1s, k*P-1ns, k*P, k*P+1ns, k*P+1s}} (>=0) x sub-second phase of the timestamp in {:?}: the injected now() is set to (timestamp read back by lstat) + age, the two other timestamps of the file sit in other periods, a second file is one period older; every N in 0..k+2 (and 2^31) x forms N,+N,-N of the matching -Xtime / -Xmin primary is evaluated by the real find; expected = floor(age/P) ==,>,< N. (B) entry/reference pairs built so that entry.X - reference.Y is -1s,-1ns,0,+1ns,+1s for each (X,Y) in {{a,c,m}}^2 (c by ordering real metadata changes and reading back; equality of c via a hard link), at two placements (about 1000 days before/after the status-change times; for pairs not involving c also in 1969 and 1931, i.e. negative seconds with a sub-second part) and {} base phases; on every pair ALL of -newer, -anewer, -cnewer and the nine -newerXY are evaluated; expected = entry.X > reference.Y at nanosecond resolution from lstat() read back. (C) one run of the find binary against the real clock: an earlier starting point runs `sleep 4`, entries that were 56 s / one day minus 4 s old when find started are visited afterwards and must still count as 0 minutes / 0 days old (now fixed at start). evaluation = (file, primary, operand); non-trivial = age within 1 s of a period boundary (A) / the pair's controlled difference concerns that primary's X,Y (B)", ks(t), big_ks(t, DAY), big_ks(t, 60), phases(t), phases(t).len()),
         bound: json!({"k": ks(t), "periods": [60, 86400], "deltas_ns": [-1_000_000_000i64, -1, 0, 1, 1_000_000_000i64], "xy": "a,c,m squared + -newer -anewer -cnewer"}),
         assumptions: vec![
             "-daystart, -newerXt, -newerB?, negative ages are outside the statement".into(),
@@ -62,7 +72,7 @@ fn age_tests(kind: char, period: i128, nmax: u64) -> (Vec<Test>, Vec<(u64, usize
     let prim = format!("-{kind}{}", if period == 60 { "min" } else { "time" });
     let mut tests = vec![];
     let mut idx = vec![];
-    let mut ns: Vec<u64> = (0..=nmax).collect();
+    let mut ns: Vec<u64> = if nmax > 190 && nmax != 365 + 2 && nmax != 366 + 2 && nmax != 3650 + 2 { [0, 1].into_iter().chain(nmax - 4..=nmax).collect() } else { (0..=nmax).collect() };
     ns.push(1 << 31);
     for n in ns {
         for (f, form) in ["", "+", "-"].iter().enumerate() {
@@ -99,7 +109,7 @@ fn part_a(ctx: &mut Ctx) {
             // files are (re)built once per (period, phase): timestamps then stay fixed
             let mut built = false;
             for kind in ['a', 'c', 'm'] {
-                for k in ks(ctx.tier) {
+                for k in ks(ctx.tier).into_iter().chain(big_ks(ctx.tier, period)) {
                     for d in [-NS, -1, 0, 1, NS] {
                         let age = k * period * NS + d;
                         if age < 0 {
@@ -348,7 +358,10 @@ fn part_b(ctx: &mut Ctx) {
         for x in ['a', 'c', 'm'] {
             for y in ['a', 'c', 'm'] {
                 for d in [-NS, -1, 0, 1, NS] {
-                    for placement in [-1i128, 1] {
+                    // +-1: ~1000 days after/before now; -21 and -35: before 1970 (negative seconds,
+                    // only where neither side is a status-change time)
+                    let placements: &[i128] = if x != 'c' && y != 'c' { &[-1, 1, -21, -35] } else { &[-1, 1] };
+                    for &placement in placements {
                         case_no += 1;
                         if !ctx.mine(case_no) {
                             continue;
